@@ -112,6 +112,8 @@ def scratch_dir(prefix="drfwork-"):
 # --------------------------------------------------------------------------- Coq build
 
 class CoqLock:
+    """serialises the OCaml link step of a runner"""
+
     def __enter__(self):
         os.makedirs(BUILD, exist_ok=True)
         self.f = open(os.path.join(BUILD, ".coq.lock"), "w")
@@ -143,22 +145,89 @@ def coq_files():
 
 
 def coq_project():
-    text = "-Q . DRF\n-arg -w -arg -notation-overridden,-deprecated-hint-without-locality,-deprecated-instance-without-locality\n" + "\n".join(coq_files()) + "\n"
-    changed = write_if_changed(os.path.join(COQ, "_CoqProject"), text)
-    if changed or not os.path.exists(os.path.join(COQ, "Makefile.coq")):
-        p = subprocess.run(["coq_makefile", "-f", "_CoqProject", "-o", "Makefile.coq"], cwd=COQ,
-                           capture_output=True, text=True)
-        if p.returncode != 0:
-            raise Broken("coq_makefile failed: " + p.stderr)
+    """_CoqProject / Makefile.coq are kept for reference and for the thorough tier's coqchk;
+    the checks themselves compile exactly the closure they need (coq_make below)."""
+    text = "-Q . DRF\n" + "\n".join(coq_files()) + "\n"
+    write_if_changed(os.path.join(COQ, "_CoqProject"), text)
 
 
-def coq_make(targets, timeout=1500):
-    """full .vo build of the given targets (paths relative to coq/, ending in .vo)"""
-    with CoqLock():
-        coq_project()
-        cmd = ["timeout", str(timeout), "make", "-f", "Makefile.coq", "-j16", "-k"] + list(targets)
-        p = subprocess.run(cmd, cwd=COQ, capture_output=True, text=True)
+REQ_RE = re.compile(r"From\s+DRF\s+Require\s+(?:Import|Export)?\s*([^.]*(?:\.[A-Za-z_][^.\s]*)*)\s*\.(?=\s)", re.S)
+COQ_WARN = "-notation-overridden,-deprecated-hint-without-locality,-deprecated-instance-without-locality,-extraction-reserved-identifier,-ambiguous-paths"
+
+
+def coq_deps(rel):
+    """DRF modules required by coq/<rel> (as relative .v paths)"""
+    txt = re.sub(r"\(\*.*?\*\)", "", open(os.path.join(COQ, rel)).read(), flags=re.S)
+    deps = []
+    for m in re.finditer(r"From\s+DRF\s+Require\s+(?:Import\s+|Export\s+)?(.*?)\.\s", txt, re.S):
+        for mod in m.group(1).split():
+            deps.append(mod.replace(".", "/") + ".v")
+    for m in re.finditer(r"Require\s+(?:Import\s+|Export\s+)?((?:DRF\.[A-Za-z0-9_.]+\s*)+)\.\s", txt):
+        for mod in m.group(1).split():
+            deps.append(mod[4:].replace(".", "/") + ".v")
+    return deps
+
+
+def _compile_one(rel, timeout):
+    os.makedirs(os.path.join(BUILD, "locks"), exist_ok=True)
+    lk = open(os.path.join(BUILD, "locks", rel.replace("/", "_") + ".lock"), "w")
+    fcntl.flock(lk, fcntl.LOCK_EX)
+    try:
+        p = subprocess.run(["timeout", str(timeout), "coqc", "-q", "-Q", ".", "DRF", "-w", COQ_WARN, rel],
+                           cwd=COQ, capture_output=True, text=True)
         return p.returncode, p.stdout + p.stderr
+    finally:
+        fcntl.flock(lk, fcntl.LOCK_UN)
+        lk.close()
+
+
+def coq_make(targets, timeout=1500, force=()):
+    """Full .vo build (never -vos) of the closure of the given targets (paths relative to coq/,
+    .vo or .v).  A file is recompiled when its .vo is missing or older than its source or than
+    the .vo of any dependency.  Returns (rc, log)."""
+    coq_project()
+    order, seen = [], set()
+
+    def visit(rel, stack=()):
+        if rel in seen:
+            return
+        if rel in stack:
+            raise Broken("dependency cycle at " + rel)
+        if not os.path.exists(os.path.join(COQ, rel)):
+            raise Broken("missing Coq source " + rel)
+        for d in coq_deps(rel):
+            visit(d, stack + (rel,))
+        seen.add(rel)
+        order.append(rel)
+
+    try:
+        for t in targets:
+            visit(t[:-3] + ".v" if t.endswith(".vo") else t)
+    except Broken as e:
+        return 2, str(e)
+    log_ = []
+    rebuilt = set()
+    for rel in order:
+        vo = os.path.join(COQ, rel[:-2] + ".vo")
+        src = os.path.join(COQ, rel)
+        stale = (rel in force) or (not os.path.exists(vo)) or os.path.getmtime(vo) < os.path.getmtime(src)
+        if not stale:
+            for d in coq_deps(rel):
+                dvo = os.path.join(COQ, d[:-2] + ".vo")
+                if d in rebuilt or os.path.getmtime(dvo) > os.path.getmtime(vo):
+                    stale = True
+                    break
+        if stale:
+            rc, out = _compile_one(rel, timeout)
+            log_.append("COQC %s\n%s" % (rel, out))
+            if rc != 0:
+                try:
+                    os.remove(vo)
+                except OSError:
+                    pass
+                return rc, "\n".join(log_)
+            rebuilt.add(rel)
+    return 0, "\n".join(log_)
 
 
 def grep_forbidden():
@@ -188,12 +257,7 @@ def check_property_file(prop, extra_targets=()):
     bad = grep_forbidden()
     if bad:
         raise Broken("forbidden constructs in the development: " + "; ".join(bad[:10]))
-    vo = rel[:-2] + ".vo"
-    try:
-        os.remove(os.path.join(COQ, vo))
-    except OSError:
-        pass
-    rc, out = coq_make([vo] + list(extra_targets))
+    rc, out = coq_make([rel] + list(extra_targets), force=(rel,))
     if rc != 0:
         raise Broken("Coq build failed for %s:\n%s" % (prop, out[-6000:]))
     # Print Assumptions output: "Closed under the global context" or "Axioms:\n name : type ..."
